@@ -324,6 +324,11 @@ def scaleOfOriginal {α : Type} (s0 : α) : List (ScaleOp α) → α
   | .set c :: rest => scaleOfOriginal c rest
   | _ => s0
 
+/-- the value of a public parameter attribute (`radius`, `delta`, `beta`, `scale`, ...) that a `prox` call must use after the
+    attribute was assigned `assigns` (in this order) on the SAME object, whatever was computed before: the last assignment
+    (nothing parameter-dependent may be cached at construction or at an earlier call) -/
+def paramAfter {α : Type} (p0 : α) (assigns : List α) : α := assigns.foldl (fun _ c => c) p0
+
 /-! ### `loss._dep_cubic_root`, `loss._cbrt` -/
 
 /-- transcendental primitives needed by `loss._cbrt` / the complex power `z ** (1/3)`; contracts of the JAX
